@@ -775,8 +775,18 @@ func singleDef(info *types.Info, body ast.Node, o types.Object) (rhs ast.Expr, i
 	return
 }
 
-func extra4C09(c *Ctx) {
-	rule := "C09-R12"
+func extra4C09(c *Ctx) { ruleChunkMarkerKey(c, "C09-R12") }
+
+func init() {
+	p := registry["C04"]
+	p.Pkgs = append(p.Pkgs, regPkg, blobPkg)
+	prev := p.Run
+	p.Run = func(c *Ctx) { prev(c); ruleChunkMarkerKey(c, "C04-R14") }
+}
+
+// ruleChunkMarkerKey is C09-R12; C04 re-runs it (C04-R14): a layer completed from another layer's
+// marker is listed with content that does not match its digest.
+func ruleChunkMarkerKey(c *Ctx, rule string) {
 	c.Rule(rule, "the marker that lets a later pull skip a chunk names the layer it was written into: in Registry.Pull the digest looked up in the cache before a chunk is requested (a hit counts the chunk as done without writing it) is computed from the layer's digest, the chunk's digest and both ends of its range — two layers that share a chunk of identical bytes at the same offset (a base model and a fine-tune) are different files, and a marker without the layer leaves a hole of zeros in the second one while the byte count still adds up")
 	f := c.Fn(rule, regPkg, "Registry.Pull")
 	if f == nil {
